@@ -39,6 +39,7 @@ CONSTANTS
   WatchNr = %(wnr)s
   CreateIgnoresVersion = %(civ)s
   RoRefusesReads = %(rrr)s
+  AbsentIsZero = %(aiz)s
 %(rest)s
 CHECK_DEADLOCK FALSE
 """
@@ -55,9 +56,9 @@ def tf(b):
 
 
 def cfg(spec="Spec", clients="{c1, c2, c3}", ro="{c3}", paths=1, values='{"addM1", "delA"}', ops=3, ext=2, nr=0, req=0,
-        wman=False, wnr=False, civ=True, rrr=True, rest="", sym=True):
+        wman=False, wnr=False, civ=True, rrr=True, aiz=False, rest="", sym=True):
     d = dict(spec=spec, clients=clients, ro=ro, paths="MCPaths%d" % paths, order="MCOrder%d" % paths, values=values, ops=ops,
-             ext=ext, nr=nr, req=req, wman=tf(wman), wnr=tf(wnr), civ=tf(civ), rrr=tf(rrr),
+             ext=ext, nr=nr, req=req, wman=tf(wman), wnr=tf(wnr), civ=tf(civ), rrr=tf(rrr), aiz=tf(aiz),
              rest=rest + ("\nSYMMETRY MCSym" if sym else ""))
     return CFG % d
 
@@ -67,7 +68,7 @@ def model_check(ctx):
     runs = [
         # (name, cfg, must hold?)
         ("code design: 2 rw clients + 1 ro client, 1 document", cfg(ops=ctx.pick(3, 4), ext=2, rest=CODE_SAFE), True),
-        ("documented design (one check-and-set, ro serves reads)", cfg(ops=ctx.pick(3, 4), ext=2, civ=False, rrr=False, rest=DOC_SAFE), True),
+        ("documented design (one check-and-set, ro serves reads)", cfg(ops=ctx.pick(3, 4), ext=2, civ=False, rrr=False, aiz=True, rest=DOC_SAFE), True),
         ("code design: 3 rw clients", cfg(ro="{}", ops=3, ext=ctx.pick(1, 2), rest=CODE_SAFE), True),
         ("code design: 2 documents", cfg(clients="{c1, c2}", ro="{}", paths=2, values='{"addM1", "delM1"}', ops=ctx.pick(2, 3), ext=ctx.pick(1, 2), rest=CODE_SAFE), True),
         ("overrides applied: KV watcher + update loop, 2 documents", cfg(clients="{c1}", ro="{}", paths=2, values='{"addM1", "delM1"}',
@@ -119,8 +120,9 @@ def probe(ctx):
     if not ctx.need_go_ok(g, "X02 probe"):
         return None
     s = g.summary
-    ctx.log("probe of the tree: CreateIgnoresVersion=%s RoRefusesReads=%s; static backend: PUT -> %s, GET -> %s"
-            % (s["create_ignores_version"], s["ro_refuses_reads"], s["static_put"], s["static_get"]))
+    ctx.take_failures(g, "probe")
+    ctx.log("probe of the tree: CreateIgnoresVersion=%s RoRefusesReads=%s AbsentIsZero=%s; static backend: PUT -> %s, GET -> %s"
+            % (s["create_ignores_version"], s["ro_refuses_reads"], s["absent_is_zero"], s["static_put"], s["static_get"]))
     leads = []
     if s["create_ignores_version"]:
         leads.append("lead: PUT /api/manual with the version of a document that was deleted meanwhile answers 200 and re-creates it "
@@ -137,7 +139,7 @@ def probe(ctx):
     return s
 
 
-def gen_histories(ctx, path, civ, rrr):
+def gen_histories(ctx, path, civ, rrr, aiz):
     tmp = path + ".all"
     rnd = random.Random(ctx.seed)
     parts = []
@@ -149,7 +151,7 @@ def gen_histories(ctx, path, civ, rrr):
     for name, u, k, cap in plans:
         if os.path.exists(tmp):
             os.remove(tmp)
-        text = cfg(spec="GenSpec", ops=1000, ext=1000, nr=(1000 if "no-route" in name else 0), civ=civ, rrr=rrr, sym=False,
+        text = cfg(spec="GenSpec", ops=1000, ext=1000, nr=(1000 if "no-route" in name else 0), civ=civ, rrr=rrr, aiz=aiz, sym=False,
                    rest="  MaxSteps = %d\nINVARIANTS GenConsistent" % k, **u)
         g = ctx.tlc("AdminKV_Gen", cfg_text=text, json_sink=tmp, workers=4, timeout=900)
         if not ctx.need_tlc_ok(g, "AdminKV Gen (%s)" % name):
@@ -166,7 +168,7 @@ def gen_histories(ctx, path, civ, rrr):
         os.remove(tmp)
     k = ctx.pick(8, 12)
     text = cfg(spec="GenSpec", clients='{"c1", "c2", "ro"}', ro='{"ro"}', paths=2, values='{"addM1", "addM2", "delA", "delM1"}',
-               ops=1000, ext=1000, nr=1000, civ=civ, rrr=rrr, sym=False, rest="  MaxSteps = %d\nINVARIANTS GenConsistent" % k)
+               ops=1000, ext=1000, nr=1000, civ=civ, rrr=rrr, aiz=aiz, sym=False, rest="  MaxSteps = %d\nINVARIANTS GenConsistent" % k)
     s = ctx.tlc("AdminKV_Gen", cfg_text=text, json_sink=tmp, simulate=ctx.pick(150, 1500), depth=4 * k + 4, seed=ctx.seed, timeout=600)
     if s.error or s.violated or s.timed_out:
         ctx.need_tlc_ok(s, "AdminKV Gen simulation")
@@ -186,20 +188,20 @@ def replay_run(ctx, hist, civ, what="X02 replay", timeout=900):
     return g
 
 
-def trace_cfg(civ, rrr):
+def trace_cfg(civ, rrr, aiz):
     text = open(os.path.join(vf.SPEC, "AdminKV_Trace.cfg")).read()
-    return text.replace("CreateIgnoresVersion = TRUE", "CreateIgnoresVersion = " + tf(civ)).replace("RoRefusesReads = TRUE", "RoRefusesReads = " + tf(rrr))
+    return text.replace("CreateIgnoresVersion = TRUE", "CreateIgnoresVersion = " + tf(civ)).replace("RoRefusesReads = TRUE", "RoRefusesReads = " + tf(rrr)).replace("AbsentIsZero = FALSE", "AbsentIsZero = " + tf(aiz))
 
 
-def validate(ctx, trace, civ, rrr):
-    r = ctx.tlc("AdminKV_Trace", cfg_text=trace_cfg(civ, rrr), workers=1, env={"VERIF_TRACE": trace}, timeout=900)
+def validate(ctx, trace, civ, rrr, aiz):
+    r = ctx.tlc("AdminKV_Trace", cfg_text=trace_cfg(civ, rrr, aiz), workers=1, env={"VERIF_TRACE": trace}, timeout=900)
     if r.timed_out or r.error:
         ctx.inconclusive("trace validation did not complete: %s" % (r.error or "timeout"))
         return None
     return r
 
 
-def concurrent(ctx, civ, rrr):
+def concurrent(ctx, civ, rrr, aiz):
     runs = ctx.pick(1, 5)
     for k in range(runs):
         g = ctx.gotest(".", FILES, "^TestVerifX02Concurrent$", race=True, timeout=900,
@@ -211,7 +213,7 @@ def concurrent(ctx, civ, rrr):
             return False
         s = g.summary
         ctx.take_failures(g, "concurrent")
-        r = validate(ctx, s["trace"], civ, rrr)
+        r = validate(ctx, s["trace"], civ, rrr, aiz)
         if r is None:
             return False
         ctx.log("concurrent run %d: %d clients, %d reads, %d writes ok, %d conflicts, %d ro requests, %d no-route requests, %d events, %d states: %s (%.0fs + %.0fs)"
@@ -236,7 +238,7 @@ def concurrent(ctx, civ, rrr):
             lines[j] = lines[j].replace('"status":200', '"status":409')
             bad = os.path.join(ctx.tmp, "x02.bad.ndjson")
             open(bad, "w").write("\n".join(lines) + "\n")
-            r2 = validate(ctx, bad, civ, rrr)
+            r2 = validate(ctx, bad, civ, rrr, aiz)
             if r2 is None:
                 return False
             if r2.ok:
@@ -257,9 +259,9 @@ def run(ctx):
     p = probe(ctx)
     if p is None:
         return
-    civ, rrr = bool(p["create_ignores_version"]), bool(p["ro_refuses_reads"])
+    civ, rrr, aiz = bool(p["create_ignores_version"]), bool(p["ro_refuses_reads"]), bool(p["absent_is_zero"])
     hist = os.path.join(ctx.tmp, "x02.hist")
-    n = gen_histories(ctx, hist, civ, rrr)
+    n = gen_histories(ctx, hist, civ, rrr, aiz)
     if n is None:
         return
     g = replay_run(ctx, hist, civ)
@@ -282,7 +284,7 @@ def run(ctx):
     if not g2.of_kind("fail"):
         ctx.inconclusive("binding self-test (replay): a corrupted expectation was not rejected")
         return
-    if not concurrent(ctx, civ, rrr):
+    if not concurrent(ctx, civ, rrr, aiz):
         return
     ctx.cover(rule="histories: every driver-forceable interleaving of <=3 (quick) / 4 (thorough) steps for one document (2 rw + 1 ro client, external edits/deletes), <=2/3 steps for two documents, <=3/4 steps with the no-route key (sampled above a cap), plus seeded random ones of 8-12 steps; concurrent: 8 read-modify-write clients + ro client + editors + no-route prober, 1 (quick) / 5 (thorough) recorded runs under -race",
               exhaustive=False)
